@@ -331,6 +331,7 @@ class GenericSpatialTransform(SequentialTransform):
             D = matrix.shape[-2]
             assert matrix.shape[-1] == D + 1
             if flip_grid_coords:
+                matrix = matrix.clone()
                 matrix[..., :D, :D] = matrix[..., :D, :D].flip((1, 2))
                 matrix[..., :D, -1] = matrix[..., :D, -1].flip(-1)
             data["affine"] = matrix
